@@ -539,7 +539,9 @@ func (fc *funcContext) translateExpr(expr ast.Expr) *expression {
 				fc.zeroValue(t.Elem()),
 			)
 		case *types.Basic:
-			return fc.formatExpr("%e.charCodeAt(%f)", e.X, e.Index)
+			// Strings are always range-checked: a constant index is only checked
+			// at compile time when the string is constant too.
+			return fc.formatExpr(rangeCheck("%1e.charCodeAt(%2f)", false, true), e.X, e.Index)
 		case *types.Signature:
 			switch u := e.X.(type) {
 			case *ast.Ident:
